@@ -41,6 +41,7 @@ type ProfileParams struct {
 	SvcOps      int
 	MaxSteps    int
 	Shape       string // eager|lazy|uniform|starve
+	Burst       int    `json:"burst,omitempty"` // profile burst: number of events emitted in a row
 	W           map[string]float64
 	Faults      map[string]bool
 	RIDs        []string // rids clients may use
